@@ -133,7 +133,7 @@ def classify_sources(prog, b, sl, br_adts, depth=0):
         if fl:
             last = fl[-1]
             if last["a"] in br_adts or re.search(r"Header|Footer|Info$|Entry$", last["a"].split("::")[-1]):
-                if last["a"].startswith("cascette_"):
+                if last["a"].startswith(("cascette_", "verif_selftest")):
                     w = int_width_wide(last.get("t", ""))
                     taints.append(Taint("field %s.%s (parsed from input)" % (last["a"].split("::")[-1], last["n"]), w, ("field", last["a"], last["n"])))
     # accessor-like workspace callees: small integer-returning functions whose body (incl. closures) reads a field of a parsed
@@ -153,7 +153,7 @@ def classify_sources(prog, b, sl, br_adts, depth=0):
                     plist = [o["p"] for o in r.get("o", []) if o["k"] in ("cp", "mv")] + ([r["p"]] if "p" in r else [])
                     for p in plist:
                         fl = [e for e in p[1:] if isinstance(e, dict) and "f" in e and e.get("a")]
-                        if fl and fl[-1]["a"].startswith("cascette_") and (fl[-1]["a"] in br_adts or re.search(r"Header|Footer|Info|V\d$", fl[-1]["a"].split("::")[-1])):
+                        if fl and fl[-1]["a"].startswith(("cascette_", "verif_selftest")) and (fl[-1]["a"] in br_adts or re.search(r"Header|Footer|Info|V\d$", fl[-1]["a"].split("::")[-1])):
                             w = int_width_wide(fl[-1].get("t", ""))
                             if best is None or (w and not best[1]):
                                 best = (fl[-1], w)
@@ -426,3 +426,7 @@ def run(ctx):
     ents, cl = entries_and_closure(ctx)
     r1_no_panic(ctx, ents, cl)
     r2_alloc(ctx, ents, cl)
+
+
+from .selftest import for_families as _ff  # noqa: E402
+selftest = _ff(['taint', 'panic'])
